@@ -26,6 +26,9 @@ await-free block":
   marks the whole sender as failed (`remote_send_err`, finding F10: field `poisoned`);
 * connection loss for the transported clients.
 
+Every label that names a call carries the (redundant) guard `c < s.n`: labels act on issued calls
+only.
+
 Ghost: the trace `tr` of events in real-time order (invocation, dispatch, every executed segment,
 finish / cancel = linearization point, response).
 -/
@@ -265,13 +268,13 @@ def step (cfg : Cfg) (s : State o) : Label → Option (State o)
                                  lost := cfg.remote cl && s.poisoned cl }
       chans := upd s.chans s.nch {} } (.inv s.n cl m a))
   | .abandon c =>
-    if (s.calls c).cl = .waiting then
+    if c < s.n ∧ (s.calls c).cl = .waiting then
       let s := setCl s c .abandoned
       some (emit { s with chans := upd s.chans (s.calls c).rch { s.chans (s.calls c).rch with rxGone := true } }
         (.abandon c))
     else none
   | .abandonEarly c =>
-    if (s.calls c).cl = .waiting ∧ (s.calls c).stage = .sending then
+    if c < s.n ∧ (s.calls c).cl = .waiting ∧ (s.calls c).stage = .sending then
       let s := setStage (setCl s c .abandoned) c .done
       some (emit { s with chans := upd s.chans (s.calls c).rch
                             { s.chans (s.calls c).rch with rxGone := true, txGone := true } } (.abandon c))
@@ -280,7 +283,7 @@ def step (cfg : Cfg) (s : State o) : Label → Option (State o)
   | .dropClients => if s.clientsGone then none else some { s with clientsGone := true }
   | .enqueue c =>
     let k := s.calls c
-    if k.stage = .sending ∧ s.queue.length < cfg.cap ∧ s.loop.isStopped = false
+    if c < s.n ∧ k.stage = .sending ∧ s.queue.length < cfg.cap ∧ s.loop.isStopped = false
         ∧ (cfg.remote k.client = true → k.lost = false ∧ o.reqFits k.client k.m k.a = true) then
       -- a request for a method the server's trait version does not know fails to deserialize on
       -- arrival: its reply sender never comes into existence, the error item takes the queue slot
@@ -289,7 +292,7 @@ def step (cfg : Cfg) (s : State o) : Label → Option (State o)
     else none
   | .sendFail c =>
     let k := s.calls c
-    if k.stage = .sending ∧ (s.loop.isStopped = true
+    if c < s.n ∧ k.stage = .sending ∧ (s.loop.isStopped = true
         ∨ (cfg.remote k.client = true ∧ (s.connUp = false ∨ k.lost = true ∨ o.reqFits k.client k.m k.a = false))) then
       let s' := dropTx (setStage s c .done) c
       -- an over-size request marks the forwarding sender of this client as failed (F10)
@@ -306,7 +309,7 @@ def step (cfg : Cfg) (s : State o) : Label → Option (State o)
   | .recvReply c =>
     let k := s.calls c
     let ch := s.chans k.rch
-    if k.cl = .waiting then
+    if c < s.n ∧ k.cl = .waiting then
       match ch.val with
       | some r => some (emit (setCl s c (.value r)) (.resp c r))
       | none =>
@@ -318,7 +321,7 @@ def step (cfg : Cfg) (s : State o) : Label → Option (State o)
     match s.queue with
     | [] => none
     | c :: q =>
-      if s.loop = .idle ∧ (cfg.variant = .pinned → s.errQ = 0) then
+      if c < s.n ∧ s.loop = .idle ∧ (cfg.variant = .pinned → s.errQ = 0) then
         let k := s.calls c
         let s := emit { s with queue := q } (.deq c)
         if o.known k.m = false then
@@ -335,13 +338,13 @@ def step (cfg : Cfg) (s : State o) : Label → Option (State o)
     match s.loop with
     | .acquiring c =>
       if o.kind (s.calls c).m = .ref then
-        if s.writer = none then some (startExec cfg { s with readers := s.readers ++ [c] } c) else none
+        if c < s.n ∧ s.writer = none then some (startExec cfg { s with readers := s.readers ++ [c] } c) else none
       else
-        if s.writer = none ∧ s.readers = [] then some (startExec cfg { s with writer := some c } c) else none
+        if c < s.n ∧ s.writer = none ∧ s.readers = [] then some (startExec cfg { s with writer := some c } c) else none
     | _ => none
   | .execStep c =>
     let k := s.calls c
-    if k.stage = .executing ∧ ¬ (o.cancellable k.m = true ∧ s.closed c = true) then
+    if c < s.n ∧ k.stage = .executing ∧ ¬ (o.cancellable k.m = true ∧ s.closed c = true) then
       let p := o.seg k.m k.a k.pc (k.loc, s.σ)
       let s1 := emit { s with σ := p.2 } (.seg c k.pc)
       if k.pc < o.nseg k.m k.a then
@@ -354,13 +357,14 @@ def step (cfg : Cfg) (s : State o) : Label → Option (State o)
     else none
   | .execCancel c =>
     let k := s.calls c
-    if k.stage = .executing ∧ o.cancellable k.m = true ∧ s.closed c = true then
+    if c < s.n ∧ k.stage = .executing ∧ o.cancellable k.m = true ∧ s.closed c = true then
       some (emit (endExec (dropTx (setStage s c .done) c) c) (.cancel c k.m k.a k.pc))
     else none
   | .deliver c =>
     let k := s.calls c
     match k.stage with
     | .replying r =>
+      if s.n ≤ c then none else
       if cfg.remote k.client = true ∧ s.connUp = false then
         some (dropTx (setStage s c .done) c)
       else if cfg.remote k.client = false ∨ o.fits k.client k.m k.a r = true then
@@ -370,11 +374,11 @@ def step (cfg : Cfg) (s : State o) : Label → Option (State o)
         some (emit (dropTx (setStage s c .reporting) c) (.replyErr c))
     | _ => none
   | .report c =>
-    if (s.calls c).stage = .reporting then some { setStage s c .done with errQ := s.errQ + 1 } else none
+    if c < s.n ∧ (s.calls c).stage = .reporting then some { setStage s c .done with errQ := s.errQ + 1 } else none
   | .serveErr =>
     if s.loop = .idle ∧ 0 < s.errQ ∧ cfg.variant = .pinned then some { s with loop := .stopped .replyErr } else none
   | .purge c =>
-    if (s.calls c).stage = .queued ∧ s.loop.isStopped = true then
+    if c < s.n ∧ (s.calls c).stage = .queued ∧ s.loop.isStopped = true then
       some { dropTx (setStage s c .done) c with queue := s.queue.filter (· != c) }
     else none
   | .serveEnd =>
